@@ -129,7 +129,7 @@ def run(chk):
             chk.leanchecker(["MambaVerif.Props.C09"])
     if not ok:
         return
-    scope_common.run_scope(chk, ["use"], "Undefined", 60 if thorough else 14, 6 if thorough else 4)
+    scope_common.run_scope(chk, ["use"], "Undefined", 60 if thorough else 30, 6 if thorough else 4)
     cases = matrix()
     if not thorough:
         keep = [c for c in cases if "/next-statement/" in c[0] or not c[0].startswith("escape/")]
